@@ -464,6 +464,320 @@ def c10(out):
     out.append("")
 
 
+# C14: field lists of the #[derive(SchemaRead, SchemaWrite)] types reachable from YaccGrammar/StateTable
+
+WINCODE_ROOTS = ["YaccGrammar", "StateTable"]
+WINCODE_REPO_FILES = ["cfgrammar/src/lib/yacc/grammar.rs", "cfgrammar/src/lib/mod.rs", "cfgrammar/src/lib/idxnewtype.rs",
+                      "cfgrammar/src/lib/span.rs", "cfgrammar/src/lib/yacc/parser.rs", "lrtable/src/lib/statetable.rs",
+                      "lrtable/src/lib/mod.rs"]
+WINCODE_DEP_CRATES = ["vob", "sparsevec", "packedvec"]
+WINCODE_PRIMS = {"u8", "u16", "u32", "u64", "usize", "bool", "String"}
+
+
+class SchemaError(SystemExit):
+    """the derive structs no longer have a shape the schema language can express (SystemExit, so that a
+    per-property `section(...)` wrapper of main() can catch it like the other extractors' failures)"""
+    pass
+
+
+def locked_version(crate):
+    for cand in (os.path.join(REPO, "Cargo.lock"), os.path.join(VERIF, "harness", "Cargo.lock")):
+        if os.path.exists(cand):
+            m = re.search(r'name = "%s"\nversion = "([^"]+)"' % re.escape(crate), open(cand).read())
+            if m:
+                return m.group(1)
+    raise SchemaError(f"{crate}: no version in Cargo.lock")
+
+
+def dep_source(crate):
+    import glob
+    ver = locked_version(crate)
+    hits = glob.glob(os.path.expanduser(f"~/.cargo/registry/src/*/{crate}-{ver}/src/lib.rs"))
+    if not hits:
+        raise SchemaError(f"{crate}-{ver}: source not found in the cargo registry")
+    return f"{crate}-{ver}/src/lib.rs", open(hits[0], encoding="utf-8").read()
+
+
+def strip_rust_comments(t):
+    t = re.sub(r"/\*.*?\*/", "", t, flags=re.S)
+    return re.sub(r"//[^\n]*", "", t)
+
+
+def split_top(s, sep=","):
+    out, depth, cur = [], 0, ""
+    prev = ""
+    for ch in s:
+        if ch in "<([{":
+            depth += 1
+        elif ch in ")]}":
+            depth -= 1
+        elif ch == ">" and prev != "-":
+            depth -= 1
+        if ch == sep and depth == 0:
+            out.append(cur)
+            cur = ""
+        else:
+            cur += ch
+        prev = ch
+    if cur.strip():
+        out.append(cur)
+    return out
+
+
+def parse_rty(t, where):
+    """Rust type text -> ('path', name, [args]) | ('tuple', [..]) | ('bslice', t); anything else is refused"""
+    t = t.strip()
+    if t.startswith("(") and t.endswith(")"):
+        return ("tuple", [parse_rty(x, where) for x in split_top(t[1:-1])])
+    m = re.fullmatch(r"(?:[A-Za-z_][A-Za-z0-9_]*::)*Box\s*<\s*\[(.*)\]\s*>", t, re.S)
+    if m:
+        return ("bslice", parse_rty(m.group(1), where))
+    m = re.fullmatch(r"((?:[A-Za-z_][A-Za-z0-9_]*::)*[A-Za-z_][A-Za-z0-9_]*)\s*(?:<(.*)>)?", t, re.S)
+    if not m:
+        raise SchemaError(f"{where}: type `{t}` is not expressible in the schema language (references, arrays, "
+                          f"function types, trait objects, lifetimes are not supported)")
+    name = m.group(1).split("::")[-1]
+    args = [parse_rty(x, where) for x in split_top(m.group(2))] if m.group(2) else []
+    return ("path", name, args)
+
+
+def parse_generics(g):
+    """`<StorageT = u32, T>` -> [(name, default text or None)]"""
+    if not g:
+        return []
+    out = []
+    for x in split_top(g):
+        x = x.strip()
+        if not x or x.startswith("'") or x.startswith("const "):
+            if x:
+                raise SchemaError(f"generic parameter `{x}` not supported")
+            continue
+        name, _, dflt = x.partition("=")
+        name = name.split(":")[0].strip()
+        out.append((name, dflt.strip() or None))
+    return out
+
+
+def parse_fields(body, where, named):
+    """fields of a struct / variant body, in order: [(name, rty)]; cfg(test) fields are not compiled in"""
+    fields = []
+    for k, raw in enumerate(split_top(body)):
+        raw = raw.strip()
+        if not raw:
+            continue
+        attrs = re.findall(r"#\s*\[(.*?)\]", raw, re.S)
+        raw = re.sub(r"#\s*\[.*?\]", "", raw, flags=re.S).strip()
+        if any(re.match(r"cfg\s*\(\s*test\s*\)", a.strip()) for a in attrs):
+            continue
+        for a in attrs:
+            if re.match(r"(cfg_attr\s*\(.*)?wincode\b", a.strip()) or "wincode(" in a:
+                raise SchemaError(f"{where}: field `{raw}` carries #[{a}]: attribute-customised encodings are not expressible")
+            if a.strip().startswith("cfg"):
+                raise SchemaError(f"{where}: field `{raw}` is conditional on #[{a}]")
+        raw = re.sub(r"^pub\s*(\([^)]*\))?\s*", "", raw)
+        if named:
+            name, _, ty = raw.partition(":")
+            fields.append((name.strip(), parse_rty(ty, f"{where}.{name.strip()}")))
+        else:
+            fields.append((str(k), parse_rty(raw, f"{where}.{k}")))
+    return fields
+
+
+def matching(text, i, open_ch, close_ch):
+    depth = 0
+    for j in range(i, len(text)):
+        if text[j] == open_ch:
+            depth += 1
+        elif text[j] == close_ch:
+            depth -= 1
+            if depth == 0:
+                return j
+    raise SchemaError("unbalanced delimiters")
+
+
+DERIVE_RE = re.compile(r"#\s*\[\s*(?:cfg_attr\s*\(\s*feature\s*=\s*\"wincode\"\s*,\s*)?derive\s*\(([^)]*)\)\s*\)?\s*\]")
+
+
+def wincode_items(path, text):
+    """all derive(SchemaRead, SchemaWrite) items of one file: name -> def"""
+    text = strip_rust_comments(text)
+    defs = {}
+    aliases = dict(re.findall(r"pub\s+type\s+([A-Za-z0-9_]+)\s*=\s*([^;]+);", text))
+    # newtype macros: a macro_rules! whose body derives the schema traits for `pub struct $n<T>(pub T);`
+    for mm in re.finditer(r"macro_rules!\s*([A-Za-z0-9_]+)\s*\{", text):
+        end = matching(text, mm.end() - 1, "{", "}")
+        body = text[mm.end():end]
+        if "SchemaRead" in body and "SchemaWrite" in body:
+            sm = re.search(r"pub\s+struct\s+\$n\s*<\s*([A-Za-z0-9_]+)\s*>\s*\(([^)]*)\)\s*;", body)
+            if not sm:
+                raise SchemaError(f"{path}: macro {mm.group(1)} derives the schema traits for an item of unexpected shape")
+            for inv in re.finditer(re.escape(mm.group(1)) + r"!\s*\(", text[end:]):
+                a = end + inv.end() - 1
+                b = matching(text, a, "(", ")")
+                inner = re.sub(r"#\s*\[.*?\]", "", text[a + 1:b], flags=re.S).strip()
+                if not re.fullmatch(r"[A-Za-z0-9_]+", inner):
+                    raise SchemaError(f"{path}: invocation of {mm.group(1)}! with `{inner}`")
+                defs[inner] = {"name": inner, "params": [(sm.group(1), None)], "enum": False,
+                               "items": [("", parse_fields(sm.group(2), f"{inner}", False))], "src": path}
+            text = text[:mm.start()] + " " * (end + 1 - mm.start()) + text[end + 1:]
+    for dm in DERIVE_RE.finditer(text):
+        traits = [x.strip() for x in dm.group(1).split(",")]
+        if "SchemaRead" not in traits and "SchemaWrite" not in traits:
+            continue
+        im = re.compile(r"(?:\s*#\s*\[.*?\]\s*)*\s*pub(?:\([^)]*\))?\s+(struct|enum)\s+([A-Za-z0-9_]+)\s*(<[^{(;]*>)?\s*([({;])", re.S).match(text, dm.end())
+        if not im:
+            raise SchemaError(f"{path}: derive(SchemaRead/SchemaWrite) not followed by a struct or enum")
+        kind, name, gen, opener = im.groups()
+        where = name
+        if ("SchemaRead" in traits) != ("SchemaWrite" in traits):
+            raise SchemaError(f"{path}: {name} derives only one of SchemaRead/SchemaWrite")
+        head = text[dm.start() - 400 if dm.start() > 400 else 0:im.end()]
+        if re.search(r"#\s*\[\s*wincode\s*\(", text[dm.start():im.end()]):
+            raise SchemaError(f"{path}: {name} carries a container-level #[wincode(..)] attribute: not expressible")
+        params = parse_generics(gen[1:-1] if gen else "")
+        if kind == "struct":
+            if opener == "{":
+                end = matching(text, im.end() - 1, "{", "}")
+                items = [("", parse_fields(text[im.end():end], where, True))]
+            elif opener == "(":
+                end = matching(text, im.end() - 1, "(", ")")
+                items = [("", parse_fields(text[im.end():end], where, False))]
+            else:
+                items = [("", [])]
+        else:
+            end = matching(text, im.end() - 1, "{", "}")
+            items = []
+            for v in split_top(text[im.end():end]):
+                attrs = re.findall(r"#\s*\[(.*?)\]", v, re.S)
+                v = re.sub(r"#\s*\[.*?\]", "", v, flags=re.S).strip()
+                if not v:
+                    continue
+                for a in attrs:
+                    if "wincode" in a or a.strip().startswith("cfg"):
+                        raise SchemaError(f"{path}: {name}::{v} carries #[{a}]: not expressible")
+                vm = re.fullmatch(r"([A-Za-z0-9_]+)\s*(?:\((.*)\)|\{(.*)\})?\s*(=.*)?", v, re.S)
+                if not vm or vm.group(4):
+                    raise SchemaError(f"{path}: {name}: variant `{v}` (explicit discriminants are not expressible)")
+                if vm.group(2) is not None:
+                    items.append((vm.group(1), parse_fields(vm.group(2), f"{name}::{vm.group(1)}", False)))
+                elif vm.group(3) is not None:
+                    items.append((vm.group(1), parse_fields(vm.group(3), f"{name}::{vm.group(1)}", True)))
+                else:
+                    items.append((vm.group(1), []))
+        defs[name] = {"name": name, "params": params, "enum": kind == "enum", "items": items, "src": path}
+    return defs, aliases
+
+
+def rty_lean(t):
+    if t[0] == "tuple":
+        return ".tuple [" + ", ".join(rty_lean(x) for x in t[1]) + "]"
+    if t[0] == "bslice":
+        return ".boxedSlice (" + rty_lean(t[1]) + ")"
+    return f".path {lean_str(t[1])} [" + ", ".join(rty_lean(x) for x in t[2]) + "]"
+
+
+def c14(out):
+    defs, aliases = {}, {}
+    sources = []
+    for f in WINCODE_REPO_FILES:
+        d, a = wincode_items(f, src(f))
+        defs.update(d)
+        aliases.update(a)
+        if d:
+            sources.append(f)
+    for c in WINCODE_DEP_CRATES:
+        pth, text = dep_source(c)
+        d, a = wincode_items(pth, text)
+        defs.update(d)
+        aliases.update(a)
+        sources.append(pth)
+
+    def norm(t, where, tparams):
+        """resolve aliases, fill default generic arguments, check expressibility"""
+        if t[0] == "tuple":
+            return ("tuple", [norm(x, where, tparams) for x in t[1]])
+        if t[0] == "bslice":
+            return ("bslice", norm(t[1], where, tparams))
+        name, args = t[1], t[2]
+        if name in aliases and not args and name not in defs:
+            return norm(parse_rty(aliases[name], where), where, tparams)
+        args = [norm(x, where, tparams) for x in args]
+        if name in tparams or name in WINCODE_PRIMS:
+            if args:
+                raise SchemaError(f"{where}: `{name}` with type arguments")
+            return ("path", name, [])
+        if name in ("Vec", "Option"):
+            if len(args) != 1:
+                raise SchemaError(f"{where}: `{name}` needs one type argument")
+            return ("path", name, args)
+        if name in defs:
+            ps = defs[name]["params"]
+            if len(args) > len(ps):
+                raise SchemaError(f"{where}: too many type arguments for {name}")
+            for (pn, dflt) in ps[len(args):]:
+                if dflt is None:
+                    raise SchemaError(f"{where}: {name} lacks the type argument {pn}")
+                args.append(norm(parse_rty(dflt, where), where, tparams))
+            reach(name)
+            return ("path", name, args)
+        raise SchemaError(f"{where}: type `{name}` is neither a primitive the schema language has, nor Vec/Option/Box<[..]>/tuple, "
+                          f"nor a type deriving SchemaRead+SchemaWrite in the scanned sources")
+
+    reached = []
+
+    def reach(name):
+        if name in reached:
+            return
+        reached.append(name)
+        d = defs[name]
+        tps = [p for p, _ in d["params"]]
+        d["nitems"] = [(vn, [(fn, norm(ft, f"{name}{'::' + vn if vn else ''}.{fn}", tps)) for fn, ft in fs]) for vn, fs in d["items"]]
+
+    for r in WINCODE_ROOTS:
+        if r not in defs:
+            raise SchemaError(f"{r} no longer derives SchemaRead/SchemaWrite (or its definition moved)")
+        reach(r)
+    out.append("/-- Rust type expressions as they occur in the fields of the `#[derive(SchemaRead, SchemaWrite)]` types -/")
+    out.append("inductive RTy")
+    out.append("  | path (name : String) (args : List RTy)")
+    out.append("  | tuple (ts : List RTy)")
+    out.append("  | boxedSlice (t : RTy)")
+    out.append("")
+    out.append("/-- one derive type: generic parameters; a struct has the single item `\"\"`, an enum its variants in")
+    out.append("declaration order; each item lists its fields (name or position, type) in declaration order -/")
+    out.append("structure RDef where")
+    out.append("  name : String")
+    out.append("  params : List String")
+    out.append("  isEnum : Bool")
+    out.append("  items : List (String × List (String × RTy))")
+    out.append("")
+    out.append("/-- the derive types reachable from " + " and ".join(WINCODE_ROOTS) + " (sources: " + ", ".join(sources) + ");")
+    out.append("`#[cfg(test)]` fields are left out; any `#[wincode(..)]` attribute or inexpressible field type makes the extraction fail -/")
+    out.append("def WINCODE_DEFS : List RDef := [")
+    rows = []
+    for name in reached:
+        d = defs[name]
+        items = ", ".join("(" + lean_str(vn) + ", [" + ", ".join("(" + lean_str(fn) + ", " + rty_lean(ft) + ")" for fn, ft in fs) + "])" for vn, fs in d["nitems"])
+        rows.append("  { name := " + lean_str(name) + ", params := [" + ", ".join(lean_str(p) for p, _ in d["params"]) + "], isEnum := "
+                    + ("true" if d["enum"] else "false") + ",\n    items := [" + items + "] }")
+    out.append(",\n".join(rows))
+    out.append("]")
+    out.append("def WINCODE_ROOTS : List String := [" + ", ".join(lean_str(r) for r in WINCODE_ROOTS) + "]")
+    others = sorted(n for n in defs if n not in reached)
+    out.append("/-- derive types in the scanned files that grammar and table do not contain -/")
+    out.append("def WINCODE_UNREACHED : List String := [" + ", ".join(lean_str(r) for r in others) + "]")
+    # the configurations CTParserBuilder::build and the generated start-up code use per format
+    ct = strip_rust_comments(src("lrpar/src/lib/ctbuilder.rs"))
+    pairs = re.findall(r"SerialisationFormat::(\w+)\s*=>\s*\{[^{}]*?Configuration::default\(\)\s*\.\s*with_(\w+)_encoding\(\)", ct)
+    ser = [(a, b) for a, b in pairs]
+    if len(ser) < 4 or len(set(ser)) != 2:
+        raise SchemaError("lrpar/src/lib/ctbuilder.rs: serialisation/reconstitution no longer pair each SerialisationFormat with "
+                          f"one Configuration in both places (found {pairs})")
+    out.append("/-- (format, integer encoding) as paired by `build` (serialisation) and by the generated start-up code -/")
+    out.append("def SERIALISATION_CONFIGS : List (String × String) := [" + ", ".join("(" + lean_str(a) + ", " + lean_str(b) + ")" for a, b in sorted(set(ser))) + "]")
+    out.append("")
+
+
 def section(prop, fn, old_text, failures):
     """Run one property's extractor. Its output is framed by markers; when it fails (the source no
     longer has the expected shape) the previous block is kept, so that the Lean library still builds
@@ -505,6 +819,7 @@ def main():
         unaudited.extend(c15(block) or [])
 
     out += section("C15", c15w, old, failures)
+    out += section("C14", c14, old, failures)
     out += ["end GrmVerif.Extracted", ""]
     new = "\n".join(out)
     if old != new:
